@@ -57,6 +57,13 @@ def c17_scenes(rng, thorough):
     add("decompress-truncated", [f("t.txt.xz", n=20000, compress_args=["-0"], truncate=rng.choice([0.3, 0.9, 0.99]))], ["-d", "t.txt.xz"], [{"src": "t.txt.xz", "dst": "t.txt", "dir": "d", "invalid": True}])
     add("two-files-one-bad", [f("x.txt.xz", n=9000, compress_args=["-0"], corrupt_seed=rng.getrandbits(20) + 1), f("y.txt.xz", n=9000, compress_args=["-0"])], ["-d", "x.txt.xz", "y.txt.xz"],
         [{"src": "x.txt.xz", "dst": "x.txt", "dir": "d", "invalid": True}, {"src": "y.txt.xz", "dst": "y.txt", "dir": "d"}])
+    # several files in one run: whatever happens to one must not leak into the next
+    add("compress-two", [f("g.bin", cls="random", n=rng.choice([20000, 70000])), f("h.txt", cls="text", n=rng.choice([700, 9000, 30000]))], ["-T1", "g.bin", "h.txt"],
+        [{"src": "g.bin", "dst": "g.bin.xz", "dir": "c"}, {"src": "h.txt", "dst": "h.txt.xz", "dir": "c"}])
+    add("compress-three-lzma", [f("u.bin", cls="random", n=30000), f("v.txt", cls="text", n=9000), f("w.bin", cls="sparse", n=40000)], ["--format=lzma", "u.bin", "v.txt", "w.bin"],
+        [{"src": "u.bin", "dst": "u.bin.lzma", "dir": "c", "fmt": "lzma"}, {"src": "v.txt", "dst": "v.txt.lzma", "dir": "c", "fmt": "lzma"}, {"src": "w.bin", "dst": "w.bin.lzma", "dir": "c", "fmt": "lzma"}])
+    add("decompress-two-good", [f("r1.bin.xz", cls="random", n=40000, compress_args=["-0"]), f("r2.txt.xz", cls="text", n=9000, compress_args=["-0"])], ["-d", "r1.bin.xz", "r2.txt.xz"],
+        [{"src": "r1.bin.xz", "dst": "r1.bin", "dir": "d"}, {"src": "r2.txt.xz", "dst": "r2.txt", "dir": "d"}])
     add("compress-stdout", [f("p.txt")], ["-c", "p.txt"], [{"src": "p.txt", "dst": None, "dir": "c", "keep": True}], stdout="file")
     add("stdin-stdout", [f("i.txt")], [], [{"src": "i.txt", "dst": None, "dir": "c", "keep": True}], stdin_file="i.txt", stdout="file")
     rng.shuffle(scenes)
@@ -252,7 +259,13 @@ def judge_c17(case, res):
                 attrs = all(any(e["call"] == c for e in mine) for c in ("fchmod",))
                 if fd is None or not closed_ok or bad_write or sync_failed or not attrs or (not pair.get("nosync") and not (synced and dir_synced)):
                     return viol("unlink-before-commit", "the source was unlinked before the target was completely written, attributed, synced (%s/%s) and closed (%s)" % (synced, dir_synced, closed_ok) + where)
-                later_writes = [e for e in ev[un[0]:] if e["call"] == "write" and e["role"] == "dest" and e["fd"] == fd]
+                # (the descriptor number is reused for the next file's target: stop at the next open that returns it)
+                tail = ev[un[0]:]
+                for k, e in enumerate(tail):
+                    if e["call"] == "open" and e["ret"] == fd:
+                        tail = tail[:k]
+                        break
+                later_writes = [e for e in tail if e["call"] == "write" and e["role"] == "dest" and e["fd"] == fd]
                 if later_writes:
                     return viol("unlink-before-commit", "target written after the source was unlinked" + where)
         # R3: a failing data-path fault must roll back and be reported
